@@ -1443,6 +1443,7 @@ def kinds_family(tier, seed):
                      ("t", "bool", ("v", "True"))],
         "factory": [("a", "int", None), ("items", "List[int]", ("f", "list")), ("d", "Dict[str, int]", ("f", "dict"))],
         "snake": [("first_name", "str", None), ("last_name_", "str", None), ("age", "int", ("v", "0"))],
+        "custom_factory": [("a", "int", None), ("items", "List[int]", ("f", "make_items"))],
         "single": [("value", "Any", None)],
     }
     nms = {
@@ -1453,6 +1454,10 @@ def kinds_family(tier, seed):
         "omit": {"omit_default": True},
         "skip": {"skip": ["c", "age", "d"]},
     }
+    def make_items():
+        # never called by a correct pipeline (a factory runs per load); a tagged result exposes hoisting
+        return ["made"]
+    tag(make_items, "factory:make_items")
     kinds = list(KIND_TEMPLATES)
     modes = [DebugTrail.ALL] if tier == "quick" else [DebugTrail.ALL, DebugTrail.FIRST, DebugTrail.DISABLE]
     for sname, spec in specs.items():
@@ -1462,7 +1467,7 @@ def kinds_family(tier, seed):
                     rec = {"kind": "kinds", "spec": sname, "fields": [[n, t, list(d) if d else None] for n, t, d in spec], "nm": nname,
                            "model_kind": kind, "debug_trail": mode.name}
                     try:
-                        M = build_kind_model(kind, "M", spec)
+                        M = build_kind_model(kind, "M", spec, {"make_items": make_items})
                         if M is None:
                             rec["inexpressible"] = True
                             emit(rec)
